@@ -109,6 +109,9 @@ func c13Extra(c *Checker) {
 	for _, n := range names {
 		c.addStruct(e, "frame", "global-scan:"+n, first.Pos(), true, fmt.Sprintf("%d functions of package %s scanned for writes to package-level state (stores, map updates, deletes, appends, calls that write through an argument; followed through parameters and closure bindings)", pk[n], n))
 	}
+	// runtime parses (string interpolation, imports, debugger) construct runtime components through the shared
+	// provider: nothing reachable from an evaluation may store into the shared interpreter structures
+	sharedScan(c, nil)
 	// the parser entry points write nothing reachable from their arguments
 	for _, k := range []string{"parser.ParseWithRuntime", "parser.Parse", "parser.Lex", "parser.LexToList"} {
 		f := w.Funcs[k]
